@@ -67,3 +67,69 @@ def cas_match_case(p):
 
 def set_case(p):
     return "%s,%s,%s" % (req_cas_case(p), presence_case(p), cas_match_case(p))
+
+
+def flush_deadlines(ctx):
+    """Evaluates the delayed-flush rewrite closure under: item timestamp <= now, no u32 saturation
+    (age, delay < 2^31).  For every path returns dict(old_zero, p1, p2, new_ttl, ts_kept):
+      p1: new expiry (timestamp' + ttl') <= now + delay      (C08: gone n seconds after the flush at the latest)
+      p2: new expiry <= timestamp + old ttl  when old ttl != 0 (C05: never prolonged)
+    each True / False / None (= cannot be shown from the path's facts)."""
+    if "flush_deadlines" in ctx._cache:
+        return ctx._cache["flush_deadlines"]
+    f = ctx.facts
+    fb = f.one(ms("flush"))
+    delay = F(P("header"), "time_to_live")
+    now = ("now",)
+    out = []
+    I = store_interp(f)
+
+    def seeds(st):
+        assume(st, {delay: 1}, lo=1, hi=2**30)
+
+    # the item's fields are terms rooted at the alter_all argument: seed generic facts after the run is impossible,
+    # so facts about the stored record are added by a model hook: we seed on the known shape of the stored term
+    stored0 = ("stored_any", F(P("self"), "memory"), 1)
+    paths0 = I.run(fb, [P("self"), P("header")], seeds=seeds)
+    stored = None
+    for p in paths0:
+        for e in map_events(p):
+            if e.name == "alter_all":
+                stored = e.extra["old"]
+    if stored is None:
+        ctx._cache["flush_deadlines"] = None
+        return None
+    ts = F(stored, "header", "timestamp")
+    old = F(stored, "header", "time_to_live")
+
+    def seeds2(st):
+        assume(st, {delay: 1}, lo=1, hi=2**30)
+        assume(st, {now: 1, ts: -1}, lo=0, hi=2**30)
+        assume(st, {old: 1}, lo=0, hi=2**32 - 1)
+        assume(st, {ts: 1}, lo=0, hi=2**62)
+        assume(st, {now: 1}, lo=0, hi=2**62)
+
+    I = store_interp(f)
+    for p in I.run(fb, [P("self"), P("header")], seeds=seeds2):
+        for e in map_events(p):
+            if e.name != "alter_all":
+                continue
+            newv = e.extra["value"]
+            nt = field_of(newv, "header", "time_to_live")
+            nts = field_of(newv, "header", "timestamp")
+            exp_new = lin_add(nts, nt, 1)
+            deadline = lin_add(now, delay, 1)
+            own = lin_add(ts, old, 1)
+            key, _f = canon({old: 1})
+            iv = p.state.iv.get(key)
+            old_zero = iv is not None and iv.decide("Eq", 0) is True
+            old_nonzero = iv is not None and iv.decide("Ne", 0) is True
+            p1 = I.decide_cmp(p.state, "Le", exp_new, deadline) if exp_new is not None else None
+            p2 = None
+            if old_zero:
+                p2 = True
+            elif exp_new is not None:
+                p2 = I.decide_cmp(p.state, "Le", exp_new, own)
+            out.append({"old_zero": old_zero, "old_nonzero": old_nonzero, "p1": p1, "p2": p2, "new_ttl": nt, "ts_kept": tform(nts) == ts, "event": e})
+    ctx._cache["flush_deadlines"] = out
+    return out
